@@ -9,6 +9,7 @@ import (
 	"fmt"
 	"image"
 	"math/rand"
+	"net"
 	"os"
 	"strings"
 	"sync"
@@ -178,6 +179,8 @@ func rbTLVBody(sc rbScenario, setup *ref.SetupClient, vc *ref.VerifyClient, rng 
 	}
 	enc := base.Encode()
 	switch sc.Cls {
+	case "twin_closed":
+		return enc // the correct start request
 	case "garbage":
 		return rnd([]int{1, 2, 3, 17, 255, 256, 300, 1000}[v%8])
 	case "truncated":
@@ -379,7 +382,13 @@ func (w *rbWorld) runScenario(b Beh, sc rbScenario, seed int64, variants int, tr
 	var lines []J
 	for v := 0; v < variants; v++ {
 		rng := rngFor(seed, 16000000+b.ID*100+v)
-		c, err := ref.Dial(w.tr.Addr)
+		var c *ref.Conn
+		var err error
+		if sc.Cls == "twin_closed" {
+			c, err = ref.DialReuse(w.tr.Addr, "127.0.0.1:0")
+		} else {
+			c, err = ref.Dial(w.tr.Addr)
+		}
 		if err != nil {
 			return err
 		}
@@ -415,6 +424,18 @@ func (w *rbWorld) runScenario(b Beh, sc rbScenario, seed int64, variants int, tr
 		}
 		// the malformed message
 		var m *ref.Msg
+		if sc.Cls == "twin_closed" {
+			// a second connection from the same address and port to another local address of the accessory comes and goes
+			_, p, _ := net.SplitHostPort(w.tr.Addr)
+			tw, terr := ref.DialReuse("127.0.0.2:"+p, port)
+			if terr != nil {
+				c.Close()
+				return fmt.Errorf("case %d: the twin connection cannot be made: %v", b.ID, terr)
+			}
+			time.Sleep(20 * time.Millisecond) // the server has accepted it
+			tw.Close()
+			time.Sleep(50 * time.Millisecond) // and noticed that it is gone
+		}
 		send := func() {
 			switch sc.Ep {
 			case "pair-setup", "pair-verify", "pairings":
